@@ -6,10 +6,21 @@ RANDOM_ZOO_COUNT = 160
 NATIVE = ["debug", "release"]
 
 
+# time budgets of the thorough tier are written for a ~27 min check; the scale keeps all twenty inside one night
+THOROUGH_TIME_SCALE = 0.7
+
+
 def plan(prop, tier):
     q = tier == "quick"
     f = PLANS.get(prop)
-    return f(q) if f else None
+    if not f:
+        return None
+    p = f(q)
+    if not q:
+        for j in p["jobs"]:
+            if j.get("ms"):
+                j["ms"] = int(j["ms"] * THOROUGH_TIME_SCALE)
+    return p
 
 
 def c01(q):
